@@ -47,9 +47,11 @@ def scan_page(status, body: bytes):
     if not m:
         return ["error page does not have the fixed skeleton (markup outside the template): %r" % body[:200]]
     fails = []
-    t = page_title(status) if status is not None else m.group(1)
-    if m.group(1) != t or m.group(2) != t:
-        fails.append("title/h1 is not the constant status text: %r / %r" % (m.group(1), m.group(2)))
+    # title/h1: "<status> <reason>", the status being the one of the case / the status line; the reason is a constant phrase
+    # (judged without the tree's own table: letters, digits, space, hyphen, and the apostrophe of "I'm a teapot")
+    t = m.group(1)
+    if m.group(2) != t or not re.fullmatch(rb"%d ([A-Za-z0-9 -]*|I'm a [Tt]eapot)" % status, t):
+        fails.append("title/h1 is not '<status> <constant reason phrase>': %r / %r" % (m.group(1), m.group(2)))
     p = m.group(3)
     bad = sorted(set(c for c in p if c in b"<>\"'"))
     if bad:
@@ -77,7 +79,7 @@ def parse_h1_stream(data: bytes):
             hdrs.append((k.lower(), v.strip(b" \t")))
         cl = [v for k, v in hdrs if k == b"content-length"]
         if not cl and m.group(1) == b"200" and not hdrs:       # reply to a CONNECT that was accepted: no body, not an error page
-            out.append({"status": 200, "headers": [], "body": b"", "raw": data[:i + 4]})
+            out.append({"status": 200, "headers": [], "body": b"", "raw": data[:i + 4], "established": True})
             data = data[i + 4:]
             continue
         if len(cl) != 1 or not re.fullmatch(rb"\d+", cl[0]): return out, data
@@ -157,9 +159,9 @@ def run_e2e(case):
         "bigreq": b"POST " + abs_t + b" HTTP/1.1\r\n" + host_hdr + b"X: " + mk_line + b"\r\nContent-Length: 100\r\n\r\n" + b"x" * 100,
     }.get(sc, b"GET " + abs_t + b" HTTP/1.1\r\n" + host_hdr + b"X-M: " + mk_line.replace(b"\t", b" ") + b"\r\n\r\n")
     server_data = {
-        "badresp": b"HTTP/1.1 " + mk_line + b"\r\n\r\n",
-        "badresphdr": b"HTTP/1.1 200 OK\r\n" + mk_line + b"\r\n\r\n",
-        "badrespcl": b"HTTP/1.1 200 OK\r\nContent-Length: " + mk_line + b"\r\n\r\n",
+        "badresp": b"HTTP/1.1 x" + mk_line + b"\r\n\r\n",          # 'x': never a valid status line whatever the marker
+        "badresphdr": b"HTTP/1.1 200 OK\r\n" + mk_line.replace(b":", b";") + b"\r\n\r\n",   # no colon: never a valid field
+        "badrespcl": b"HTTP/1.1 200 OK\r\nContent-Length: x" + mk_line + b"\r\n\r\n",   # 'x': never a valid length
         "bigresp": b"HTTP/1.1 200 OK\r\nX: " + mk_line + b"\r\nContent-Length: 100\r\n\r\n" + b"y" * 100,
     }.get(sc)
     with taddons.context(proxyserver.Proxyserver()) as tctx, Recorder() as rec:
@@ -203,6 +205,7 @@ def run_e2e(case):
         if proto == "h1":
             rs, leftover = parse_h1_stream(wire)
             for r in rs:
+                if r.get("established"): continue      # bare "200 Connection established": the only non-page a scenario can produce
                 pages.append({"status": r["status"], "ct": hx(dict(r["headers"]).get(b"content-type", b"")),
                               "server": hx(dict(r["headers"]).get(b"server", b"")),
                               "body_hex": hx(r["body"]), "raw_hex": hx(r["raw"])})
@@ -298,6 +301,28 @@ class Check(PropertyCheck):
     trusted_base = ["CPython html.escape, textwrap.dedent, str.strip, str.encode('utf8','replace') as the primitives the model transcribes",
                     "h2/hpack framing of the HTTP/2 error response (the check decodes it with the same library)"]
     parallel = False
+
+    def setup(self, tier):
+        self.known_selftest()
+
+    def known_selftest(self):
+        """C12 has no recorded finding: known() excuses nothing.  Frozen pages keep the oracle itself honest (independent of
+        the tree under test): it accepts the genuine page and rejects each kind of leak."""
+        assert self.known({"op": "fmt", "status": 400, "msg_hex": "3c"}, {}, "anything") is None
+        page = lambda title, p: (b"<html>\n<head>\n    <title>" + title + b"</title>\n</head>\n<body>\n    <h1>" + title +
+                                 b"</h1>\n    <p>" + p + b"</p>\n</body>\n</html>")
+        ok = [(400, b"400 Bad Request", b"x&lt;script&gt;&quot;&#x27;&amp;"), (418, b"418 I'm a teapot", b""), (599, b"599 Unknown", b"a\nb"),
+              (203, b"203 Non-Authoritative Information", b"&amp;amp;")]
+        bad = [(400, b"400 Bad Request", b"<"), (400, b"400 Bad Request", b"a>"), (400, b"400 Bad Request", b"'"), (400, b"400 Bad Request", b'"'),
+               (400, b"400 Bad Request", b"&x"), (400, b"400 Bad Request", b"&amp"), (400, b"400 Bad Request", b"<a href=x>y</a>"),
+               (400, b"502 Bad Gateway", b"x"), (400, b"400 Bad 'Request'", b"x"), (400, b"400 Bad & Request", b"x"), (400, b"400 \"x\"", b"x")]
+        for st, t, p in ok:
+            assert scan_page(st, page(t, p)) == [], ("oracle self-test: genuine page rejected", st, t, p)
+        for st, t, p in bad:
+            assert scan_page(st, page(t, p)), ("oracle self-test: leak accepted", st, t, p)
+        assert scan_page(400, page(b"400 Bad Request", b"x") + b"<script>")       # markup after the template
+        rs, left = parse_h1_stream(b"HTTP/1.1 400 Bad Request\r\ncontent-length: 3\r\n\r\nab")
+        assert not rs and left                                                     # truncated body is not a complete response
 
     # ---- translator ---------------------------------------------------------------------------------------------
     def translate(self):
@@ -456,8 +481,8 @@ class Check(PropertyCheck):
         if obs["leftover_hex"] != "-":
             fails.append("client stream is not a sequence of complete, correctly framed responses; leftover %r" % unhx(obs["leftover_hex"])[:120])
         for p in obs["pages"]:
-            if p["server"] == "-" or not unhx(p["server"]).startswith(b"mitmproxy"):
-                continue            # not a page mitmproxy generated itself
+            # every response a scenario can put on the client's wire is generated by mitmproxy itself (the upstream never
+            # sends a relayable response: see run_e2e) — no abstention on the Server header or anything else the page carries
             if unhx(p["ct"]) != b"text/html":
                 fails.append("error page without Content-Type text/html: %r" % unhx(p["ct"]))
             if case["proto"] == "h2" and not p.get("ended"):
@@ -477,7 +502,6 @@ class Check(PropertyCheck):
         obs = self._stash[1] if getattr(self, "_stash", (None,))[0] == self._key(case) else self.impl(case)
         out = []
         for kind, st, m, _ in obs["calls"]:
-            if not (100 <= st <= 999): return None
             out.append(("resp" if kind == "resp" else "fmt") + f" {st} {m}")
         for p in self._own_pages(obs):
             if case["proto"] == "h2": out.append(f"h2hdr {p['status']}")
@@ -490,7 +514,7 @@ class Check(PropertyCheck):
 
     @staticmethod
     def _own_pages(obs):
-        return [p for p in obs["pages"] if p["server"] != "-" and unhx(p["server"]).startswith(b"mitmproxy")]
+        return list(obs["pages"])
 
     def model_obs(self, case, replies):
         return list(replies) + (["unmatched=0"] if case["op"] == "e2e" else [])
@@ -515,7 +539,7 @@ class Check(PropertyCheck):
             return ("err", case["code"], case["started"], case["canwrite"], case["msg_hex"])
         if case["op"] == "fmt":
             return None if case["msg_hex"] == "-" else ("fmt", case["status"], case["msg_hex"])
-        if not any(p["server"] != "-" for p in obs["pages"]): return None
+        if not obs["pages"]: return None
         return ("e2e", case["proto"], case["sc"], case.get("mode"), case["mk_hex"], case.get("cut", 0), bool(case.get("novalidate")))
 
     def branches(self, case, obs):
@@ -529,7 +553,7 @@ class Check(PropertyCheck):
             if any(c > 0x7f for c in m): out.append("fmt:non-ascii")
             if case["status"] not in status_codes.RESPONSES: out.append("fmt:unknown-status")
             return out
-        n = sum(1 for p in obs["pages"] if p["server"] != "-")
+        n = len(obs["pages"])
         out = [f"e2e:{case['proto']}:{case['sc']}:pages={n}"]
         mk = html.escape(unhx(case["mk_hex"]).decode("utf-8", "replace")).encode()
         if any(b"&lt;" in unhx(p["body_hex"]) or b"&#x27;" in unhx(p["body_hex"]) or b"&quot;" in unhx(p["body_hex"]) for p in obs["pages"]):
